@@ -272,7 +272,7 @@ Arguments rr_outcome {cmd}. Arguments rr_steps {cmd}. Arguments rr_ext {cmd}. Ar
 (* ================================================================== scripted commands (the oracle of the tie) *)
 (* One command is rendered by the harness as  sh -c 'p1; p2; ...; exit N'.  Primitives never abort the script. *)
 Inductive prim :=
-| POut (s : string)              (* printf %s 's'            *)
+| POut (s : string)              (* printf %s "s"            *)
 | PErr (s : string)              (* printf %s 's' >&2        *)
 | PWrite (f s : string)          (* printf %s 's' > f        *)
 | PAppend (f s : string)         (* printf %s 's' >> f       *)
